@@ -640,8 +640,8 @@ class Performance(object):
         self.performedparts[index] = pp
 
     def __iter__(self) -> Iterator[PerformedPart]:
-        self.iter_idx = 0
-        return self
+        # a fresh iterator per call, so that nested or interleaved iterations are independent
+        return iter(self.performedparts)
 
     def __next__(self) -> PerformedPart:
         if self.iter_idx == len(self.performedparts):
